@@ -232,12 +232,14 @@ fn reopen_child(sc: &Scenario, dir: &str) {
     // (iii) InitLoadUnverified has finished its scan (Node::start waits for the flag); wait until what it resubmitted is processed
     let mut stable = 0;
     let mut last = (unverified(n.shared.store(), &sc.dict), n.shared.snapshot().tip_hash(), writes());
-    for _ in 0..4000 {
+    // nothing unverified left and no write for 50 ms = done; something left: give the verify thread 8 s without any
+    // progress (a loaded machine must not turn into an "unverified block left" verdict)
+    for _ in 0..12000 {
         std::thread::sleep(std::time::Duration::from_millis(5));
         let cur = (unverified(n.shared.store(), &sc.dict), n.shared.snapshot().tip_hash(), writes());
         if cur == last {
             stable += 1;
-            if (cur.0.is_empty() && stable >= 10) || stable >= 120 {
+            if (cur.0.is_empty() && stable >= 10) || stable >= 1600 {
                 break;
             }
         } else {
